@@ -79,6 +79,10 @@ def main():
     notes = []
     os.makedirs(os.path.join(VERIF, "replays"), exist_ok=True)
     os.makedirs(os.path.join(VERIF, "evidence"), exist_ok=True)
+    import glob as _glob
+    for old in _glob.glob(os.path.join(VERIF, "replays", "%s-%d-*.json" % (prop, seed))):
+        try: os.remove(old)
+        except OSError: pass
 
     # ---- (1) proofs
     with coqbuild.BuildLock():
